@@ -173,6 +173,19 @@ m("benign-wal-update-after-queueing", "C03", "nomt/src/bitbox/mod.rs",
   "                wal_blob_builder.write_update(\n                    page_id.encode(),\n                    &dirty_page.diff,\n                    dirty_page\n                        .diff\n                        .pack_changed_nodes(dirty_page.page.page_data()),\n                    dirty_page.page.elided_children(),\n                    bucket,\n                );\n\n                let pn = self.shared.store.data_page_index(bucket);\n                cache_updates.push((\n                    page_id.clone(),\n                    Some((dirty_page.page.clone(), BucketIndex(bucket))),\n                ));\n",
   "                let pn = self.shared.store.data_page_index(bucket);\n                cache_updates.push((\n                    page_id.clone(),\n                    Some((dirty_page.page.clone(), BucketIndex(bucket))),\n                ));\n                wal_blob_builder.write_update(\n                    page_id.encode(),\n                    &dirty_page.diff,\n                    dirty_page\n                        .diff\n                        .pack_changed_nodes(dirty_page.page.page_data()),\n                    dirty_page.page.elided_children(),\n                    bucket,\n                );\n",
   None)
+# ---- C03 O14: the redo applies every WAL entry ----
+m("c03-redo-skips-update-when-hint-matches", "C03", "nomt/src/bitbox/mod.rs",
+  "                    changed_meta_page_ixs.insert(meta_map.page_index(bucket as usize));\n                }\n\n                // Apply the diff to the page in the ht file.",
+  "                    changed_meta_page_ixs.insert(meta_map.page_index(bucket as usize));\n                } else if page_diff.count() == 0 {\n                    // nothing to re-apply\n                    continue;\n                }\n\n                // Apply the diff to the page in the ht file.",
+  "O14|bitbox::recover|entry=Update=>redo")
+m("c03-redo-clear-skipped-out-of-range", "C03", "nomt/src/bitbox/mod.rs",
+  "            wal::WalEntry::Clear { bucket } => {\n                meta_map.set_tombstone(bucket as usize);",
+  "            wal::WalEntry::Clear { bucket } => {\n                if bucket as usize >= meta_map.len() / 2 {\n                    continue;\n                }\n                meta_map.set_tombstone(bucket as usize);",
+  "O14|bitbox::recover|entry=Clear=>redo")
+m("benign-redo-update-arm-early-bail", "C03", "nomt/src/bitbox/mod.rs",
+  "                let hash = hash_raw_page_id(page_id, &seed);\n                let meta_map_changed = meta_map.hint_not_match(bucket as usize, hash);",
+  "                if page_diff.count() != changed_nodes.len() {\n                    anyhow::bail!(\"mismatched number of changed nodes\");\n                }\n                let hash = hash_raw_page_id(page_id, &seed);\n                let meta_map_changed = meta_map.hint_not_match(bucket as usize, hash);",
+  None)
 # ---------------- C12 / C11 / C09 ----------------
 m("c12-root-check-after-rollback-commit", "C12", "nomt/src/lib.rs",
   "    pub fn commit<T: HashAlgorithm>(self, nomt: &Nomt<T>) -> Result<(), anyhow::Error> {\n        let _write_guard = self.take_global_guard.then(|| nomt.access_lock.write());\n",
